@@ -14,7 +14,7 @@ func main() {
 		Property:   "C06",
 		Rule:       "random DB programs (writes, flushes, automatic/seek/manual compactions on sub-ranges, trivial moves, transaction commits, reopen) x option lattice x 4 comparers; after EVERY installed version (commit hook) every live table is re-read and the C06 conditions are checked: file exists with recorded size, strictly ordered, recorded smallest/largest = first/last, level 0 newest first, deeper levels ordered and disjoint, shallower newer than deeper per user key; non-trivial = a version with >=3 populated levels was installed",
 		Header:     "From GL Require Import Corr.C06Run.",
-		QuickProgs: 240, QuickOps: 300, ThorProgs: 2000, ThorOps: 1200,
+		QuickProgs: 560, QuickOps: 300, ThorProgs: 2000, ThorOps: 1200,
 		Weights: w, CheckEvery: 16, CheckWf: true,
 		KPrefixes: []string{"KWf"}, KCapQuick: 240, KCapThor: 1200, KPerRun: 4,
 		NonTrivial: func(s map[string]int) bool { return s["max_levels"] >= 3 },
